@@ -64,6 +64,36 @@ func gen(seed int64, i int, thorough bool) (config, [][]txn.Op, []txn.Model) {
 		return tag + strings.Repeat("x", n-len(tag))
 	}
 	vn := 0
+	if (i%4+i/4)%3 == 0 {
+		// DRAIN programs (about a third of the programs, spread over placements and slot lengths): one transaction fills the store with contiguous keys (a few leaves), then every
+		// further transaction removes 1-3 of them in PRNG order until the store is empty - leaves get
+		// emptied and unlinked, parents keep nil children, separators next to them are removed, roots shrink
+		nk := 3*c.Slot + 2
+		if nk > 40 {
+			nk = 40
+		}
+		var fill []txn.Op
+		for k := 0; k < nk; k++ {
+			vn++
+			v := val(fmt.Sprintf("v%d.", vn))
+			fill = append(fill, txn.Op{Store: "s", Kind: "add", K: txn.Key(k), V: v})
+			model["s"][txn.Key(k)] = v
+		}
+		batches = append(batches, fill)
+		models = append(models, model.Clone())
+		order := rnd.Perm(nk)
+		for at := 0; at < nk && len(batches) < 16; {
+			var ops []txn.Op
+			for n := 1 + rnd.Intn(3); n > 0 && at < nk; n-- {
+				ops = append(ops, txn.Op{Store: "s", Kind: "remove", K: txn.Key(order[at])})
+				delete(model["s"], txn.Key(order[at]))
+				at++
+			}
+			batches = append(batches, ops)
+			models = append(models, model.Clone())
+		}
+		return c, batches, models
+	}
 	for b := 0; b < nb; b++ {
 		var ops []txn.Op
 		n := 3 + rnd.Intn(18)
